@@ -52,6 +52,27 @@ func main() {
 		if err := discoverEvents(p, os.Args[2], os.Args[3:]); err != nil {
 			fmt.Println("ERR", err)
 		}
+	case "errscan":
+		p, err := loadProgram(LoadOpts{})
+		if err != nil {
+			fmt.Println("ERR", err)
+			os.Exit(1)
+		}
+		for _, pp := range []*Program{p, p.V2} {
+			var lines []string
+			for fn := range allFuncs(pp) {
+				if fn.Blocks == nil {
+					continue
+				}
+				for _, s := range scanErrDiscipline(pp, fn) {
+					lines = append(lines, fmt.Sprintf("%s %s %s  # %s", s.kind, short(fullFuncName(fn)), s.callee, pp.pos(s.pos)))
+				}
+			}
+			sort.Strings(lines)
+			for _, l := range lines {
+				fmt.Println(l)
+			}
+		}
 	case "props":
 		m := map[string]string{}
 		for id, d := range props {
@@ -111,6 +132,9 @@ func runCheck(args []string) int {
 		r.Analysed["packages_with_deps"] = len(p.All)
 		r.Analysed["ssa_functions"] = p.NFuncs + p.V2.NFuncs
 		d.run(p, r)
+		for _, f := range extras[id] {
+			f(p, r)
+		}
 	}()
 	return r.finish(d.explanation, append(append([]string{}, commonAssumptions...), d.assumptions...))
 }
